@@ -434,7 +434,8 @@ def esc(s):
 
 def dreq(T, f):
     """what the disambiguator takes for 'no default' (see harness/props/c12.py)"""
-    return f["dflt"] == "req" or (T["kind"] == "dc" and f["dflt"] == "factory")
+    # (until fix F49 a dataclass field with only a default_factory also counted)
+    return f["dflt"] == "req"
 
 
 def omit_in_effect(cfg, f):
